@@ -68,6 +68,12 @@ Proof.
   - rewrite IH. rewrite <- psum_plus. reflexivity.
 Qed.
 
+Lemma psum_cons a l f : psum (a :: l) f = f a + psum l f.
+Proof. reflexivity. Qed.
+Lemma psum_nil f : psum [] f = 0.
+Proof. reflexivity. Qed.
+Arguments psum : simpl never.
+
 Lemma nthq_vzero n j : nthq (vzero n) j == 0.
 Proof.
   unfold nthq, vzero. revert j. induction n as [|n IH]; intros [|j]; simpl; try reflexivity. apply IH.
@@ -258,7 +264,7 @@ Lemma move_rows_spec n L0 r0 r : forall ps h h2,
 Proof.
   induction ps as [|a ps IH]; intros h h2 Hh Hr Hnew Hold H; simpl in H.
   - inversion H; subst. repeat split; auto.
-    + intros. simpl. lra.
+    + intros. rewrite psum_nil. lra.
     + intros p [].
   - assert (Skip : move_rows ps r0 h r = Ok h2 -> (forall j, rowv h r0 a j == 0) ->
         length h2 = length h /\ hwf n h2 /\
@@ -268,7 +274,7 @@ Proof.
         (forall p, In p (a :: ps) -> resolve (rset r) p = None -> forall j, rowv h r0 p j == 0)).
     { intros H' Hz. destruct (IH h h2 Hh Hr Hnew Hold H') as (A & B & C & D & E).
       repeat split; auto.
-      - intros q j. rewrite D. simpl. pose proof (Hz j) as Hzj. destruct (lands (rset r) a q); lra.
+      - intros q j. rewrite D. rewrite psum_cons. pose proof (Hz j) as Hzj. destruct (lands (rset r) a q); lra.
       - intros p [->|Hp] Hn j; [apply Hz|apply E; auto]. }
     destruct (r0 a) as [c|] eqn:Ra.
     + destruct (any_nz (cellv h c)) eqn:NZ.
@@ -294,7 +300,7 @@ Proof.
         -- intros c0 Hc0. rewrite C by exact Hc0. apply Hne. exact Hc0.
         -- intros q0 j. rewrite D. unfold h' at 1.
            rewrite (rowv_upd_add n h r q c' (cellv h c) q0 j Hh Hr Hv Rc).
-           simpl. unfold lands at 2. rewrite Rq.
+           rewrite psum_cons. unfold lands at 2. rewrite Rq.
            assert (Ex : psum ps (fun p => if lands (rset r) p q0 then rowv h' r0 p j else 0) ==
                         psum ps (fun p => if lands (rset r) p q0 then rowv h r0 p j else 0)).
            { apply psum_ext. intros p _. rewrite Hrow0. reflexivity. }
@@ -314,14 +320,18 @@ Lemma sum_rows_gen n h r : forall ps acc,
   length res = n /\ forall j, nthq res j == nthq acc j + psum ps (fun p => rowv h r p j).
 Proof.
   induction ps as [|a ps IH]; intros acc Hh Hr Ha; simpl.
-  - split; auto. intros; lra.
+  - split; auto. intros; rewrite psum_nil; lra.
   - destruct (r a) as [c|] eqn:Ra.
     + assert (Hc : length (cellv h c) = n) by (apply Hh; eapply Hr; eauto).
       assert (Hl : length (vadd acc (cellv h c)) = n) by (rewrite vadd_length; congruence).
       destruct (IH (vadd acc (cellv h c)) Hh Hr Hl) as [A B]. split; [exact A|].
-      intros j. rewrite B. rewrite nthq_vadd by congruence. unfold rowv at 2. rewrite Ra. lra.
+      intros j. rewrite B. rewrite nthq_vadd by congruence. rewrite psum_cons.
+      assert (Ea : rowv h r a j = nthq (cellv h c) j) by (unfold rowv; rewrite Ra; reflexivity).
+      rewrite Ea. lra.
     + destruct (IH acc Hh Hr Ha) as [A B]. split; [exact A|].
-      intros j. rewrite B. unfold rowv at 2. rewrite Ra. lra.
+      intros j. rewrite B. rewrite psum_cons.
+      assert (Ea : rowv h r a j = 0) by (unfold rowv; rewrite Ra; reflexivity).
+      rewrite Ea. lra.
 Qed.
 
 Lemma sum_rows_spec n h r :
@@ -473,4 +483,233 @@ Proof.
   - inversion H; subst; exact L.
   - destruct (step s o) as [s1|e] eqn:S1; [|discriminate]. simpl in H.
     eapply IH; [eapply step_live; eauto|exact H].
+Qed.
+
+(* ================= well-formed states, dense abstraction ================= *)
+Definition fl (s : st) (p : phase) (j : nat) : Q := nthq (flow s p) j.
+Definition sdwf (n : nat) (d : sdata) : Prop := forall p v, sd_rows d p = Some v -> length v = n.
+Definition par_wf (h : list vec) (p : repr) : Prop :=
+  match p with Single _ c => (c < length h)%nat | Multi r => rwf h r end.
+Definition wf (s : st) : Prop :=
+  hwf (nch s) (heap s) /\ par_wf (heap s) (par s) /\ (ptc s < length (tcs s))%nat /\
+  Forall (sdwf (nch s)) (saved s).
+Definition frame (s s' : st) : Prop :=
+  nch s' = nch s /\ tcs s' = tcs s /\ ptc s' = ptc s /\ saved s' = saved s /\ lastret s' = lastret s.
+(* the set of phase labels the stream has now *)
+Definition pset_now (s : st) : pset :=
+  match par s with Single q _ => (fun p => phase_eqb p q) | Multi r => rset r end.
+(* material of phase p is found in p if the stream now has p, else in the other case *)
+Definition placed (s s' : st) : Prop :=
+  forall q j, fl s' q j == psum all_phases (fun p => if lands (pset_now s') p q then fl s p j else 0).
+(* every non-empty phase of s has a place in t (up to case) *)
+Definition covers (s : st) (t : pset) : Prop := forall p j, resolve t p = None -> fl s p j == 0.
+
+Lemma total_psum s j : total s j = psum all_phases (fun p => fl s p j).
+Proof. reflexivity. Qed.
+
+Lemma fl_multi s r p j : par s = Multi r -> fl s p j == rowv (heap s) r p j.
+Proof.
+  intros H. unfold fl, flow, rowv. rewrite H. destruct (r p); [reflexivity|apply nthq_vzero].
+Qed.
+Lemma fl_single s q c p j : par s = Single q c ->
+  fl s p j == if phase_eqb p q then nthq (cellv (heap s) c) j else 0.
+Proof.
+  intros H. unfold fl, flow. rewrite H. destruct (phase_eqb p q); [reflexivity|apply nthq_vzero].
+Qed.
+Lemma total_single s q c j : par s = Single q c -> total s j == nthq (cellv (heap s) c) j.
+Proof.
+  intros H. rewrite total_psum.
+  rewrite (psum_ext all_phases _ (fun p => if phase_eqb p q then nthq (cellv (heap s) c) j else 0)).
+  - apply psum_indicator; [apply all_phases_nodup|apply all_phases_in].
+  - intros p _. apply fl_single. exact H.
+Qed.
+
+Lemma resolve_ext t t' p : (forall x, t x = t' x) -> resolve t p = resolve t' p.
+Proof. intros H. unfold resolve. rewrite (H p). destruct (swapc p) as [q|]; [rewrite (H q)|]; reflexivity. Qed.
+Lemma lands_ext t t' p q : (forall x, t x = t' x) -> lands t p q = lands t' p q.
+Proof. intros H. unfold lands. rewrite (resolve_ext t t' p H). reflexivity. Qed.
+Lemma resolve_self t p : t p = true -> resolve t p = Some p.
+Proof. intros H. unfold resolve. rewrite H. reflexivity. Qed.
+
+(* a target in which every non-empty phase keeps its own label moves nothing *)
+Lemma psum_lands_id t f q :
+  (forall p, resolve t p <> Some p -> f p == 0) ->
+  psum all_phases (fun p => if lands t p q then f p else 0) == f q.
+Proof.
+  intros H.
+  rewrite (psum_ext all_phases _ (fun p => if phase_eqb p q then f q else 0)).
+  - apply psum_indicator; [apply all_phases_nodup|apply all_phases_in].
+  - intros p _. unfold lands. destruct (phase_eqb p q) eqn:E.
+    + apply phase_eqb_eq in E. subst p.
+      destruct (resolve t q) as [q'|] eqn:R.
+      * destruct (phase_eqb q q') eqn:E'; [reflexivity|].
+        symmetry. apply H. intros X. rewrite R in X. inversion X; subst. rewrite phase_eqb_refl in E'. discriminate.
+      * symmetry. apply H. rewrite R. discriminate.
+    + destruct (resolve t p) as [q'|] eqn:R; [|reflexivity].
+      destruct (phase_eqb q q') eqn:E'; [|reflexivity].
+      apply phase_eqb_eq in E'. subst q'. apply H. intros X. rewrite R in X. inversion X; subst.
+      rewrite phase_eqb_refl in E. discriminate.
+Qed.
+
+(* placement + every non-empty phase placed  ==>  totals *)
+Lemma placed_total s s' :
+  placed s s' -> covers s (pset_now s') -> forall j, total s' j == total s j.
+Proof.
+  intros Hp Hc j. rewrite !total_psum.
+  rewrite (psum_ext all_phases _ (fun q => psum all_phases (fun p => if lands (pset_now s') p q then fl s p j else 0)))
+    by (intros q _; apply Hp).
+  rewrite psum_swap. apply psum_ext. intros p _.
+  unfold lands. destruct (resolve (pset_now s') p) as [q'|] eqn:R.
+  - apply (psum_indicator all_phases q' (fl s p j)); [apply all_phases_nodup|apply all_phases_in].
+  - rewrite psum_zero by (intros; reflexivity). symmetry. apply Hc. exact R.
+Qed.
+
+Lemma single_placed s s' q c :
+  par s' = Single q c -> (forall j, fl s' q j == total s j) -> covers s (pset_now s') -> placed s s'.
+Proof.
+  intros Hs Ht Hc q0 j. rewrite (fl_single s' q c q0 j Hs).
+  assert (PN : forall x, pset_now s' x = phase_eqb x q) by (intros x; unfold pset_now; rewrite Hs; reflexivity).
+  destruct (phase_eqb q0 q) eqn:E.
+  - apply phase_eqb_eq in E. subst q0.
+    pose proof (fl_single s' q c q j Hs) as X. rewrite phase_eqb_refl in X. rewrite <- X.
+    rewrite Ht, total_psum.
+    apply psum_ext. intros p _. unfold lands. destruct (resolve (pset_now s') p) as [q'|] eqn:R.
+    + apply resolve_in in R. rewrite PN in R. apply phase_eqb_eq in R. subst q'.
+      rewrite phase_eqb_refl. reflexivity.
+    + apply Hc. exact R.
+  - symmetry. apply psum_zero. intros p _. unfold lands.
+    destruct (resolve (pset_now s') p) as [q'|] eqn:R; [|reflexivity].
+    apply resolve_in in R. rewrite PN in R. apply phase_eqb_eq in R. subst q'. rewrite E. reflexivity.
+Qed.
+
+Lemma wf_views_irrelevant s v : wf s -> wf (set_views s v).
+Proof. intros H; exact H. Qed.
+
+Lemma to_single_spec s p s' :
+  wf s -> to_single s p = Ok s' ->
+  wf s' /\ frame s s' /\ (exists c, par s' = Single p c) /\ (forall j, fl s' p j == total s j).
+Proof.
+  unfold to_single. intros (Hh & Hp & Htc & Hsv) H. destruct (par s) as [p0 c|r] eqn:Ps.
+  - inversion H; subst. simpl in Hp. split; [|split; [|split]].
+    + repeat split; simpl; auto.
+    + repeat split.
+    + exists c. reflexivity.
+    + intros j. match goal with |- fl ?S _ _ == _ => rewrite (fl_single S p c p j eq_refl) end. rewrite phase_eqb_refl. simpl.
+      rewrite (total_single s p0 c j Ps). reflexivity.
+  - destruct (Nat.eqb (pset_card (rset r)) 0); [discriminate|]. inversion H; subst. clear H.
+    simpl in Hp. destruct Hp as [Hr Hinj].
+    destruct (sum_rows_spec (nch s) (heap s) r Hh Hr) as [Lv Sv].
+    split; [|split; [|split]].
+    + unfold wf; simpl. split; [apply hwf_app; auto|]. split; [rewrite app_length; simpl; lia|]. split; auto.
+    + repeat split.
+    + eexists. reflexivity.
+    + intros j. match goal with |- fl ?S _ _ == _ => rewrite (fl_single S p (length (heap s)) p j eq_refl) end. rewrite phase_eqb_refl. simpl.
+      rewrite cellv_app_new. rewrite Sv. rewrite total_psum. apply psum_ext. intros q _.
+      symmetry. apply fl_multi. exact Ps.
+Qed.
+
+Lemma pset_eqb_true a b : pset_eqb a b = true -> forall p, a p = b p.
+Proof.
+  unfold pset_eqb. rewrite forallb_forall. intros H p. specialize (H p (all_phases_in p)).
+  apply Bool.eqb_prop in H. exact H.
+Qed.
+
+Lemma set_phases_multi_target s t s' :
+  wf s -> set_phases s t false = Ok s' -> pset_card t <> 1%nat ->
+  wf s' /\ frame s s' /\ (forall p, pset_now s' p = t p) /\ covers s t /\ placed s s'.
+Proof.
+  unfold set_phases. intros (Hh & Hp & Htc & Hsv) H Hcard. rewrite Nat.add_0_r in H.
+  apply Nat.eqb_neq in Hcard. rewrite Hcard in H.
+  destruct (par s) as [p0 c|r0] eqn:Ps.
+  - (* Stream -> MultiStream *)
+    destruct (blank (nch s) t (heap s)) as [h1 r] eqn:B.
+    destruct (blank_spec _ _ _ _ _ B) as (E & Hset & Hrange & Hinj).
+    destruct (blank_cells _ _ _ _ _ B) as (Cold & Cnew & Clen).
+    assert (Hh1 : hwf (nch s) h1) by (eapply blank_hwf; eauto).
+    assert (Hr1 : rwf h1 r) by (split; [intros p c' Hc'; apply (Hrange p c' Hc')|exact Hinj]).
+    simpl in Hp.
+    assert (Z1 : forall q j, rowv h1 r q j == 0).
+    { intros q j. unfold rowv. destruct (r q) as [c'|] eqn:Rq; [|reflexivity].
+      rewrite Cnew by (apply (Hrange q c' Rq)). apply nthq_vzero. }
+    destruct (any_nz (cellv (heap s) c)) eqn:NZ.
+    + destruct (rlookup r p0) as [c'|] eqn:Lk; [|discriminate]. inversion H as [Hs']; subst s'; clear H.
+      destruct (rlookup_some r p0 c' Lk) as (q0 & Rq0 & Rc').
+      assert (Lc' : (c' < length h1)%nat) by (apply (Hrange q0 c' Rc')).
+      split; [|split; [|split; [|split]]].
+      * unfold wf; simpl. split; [apply hwf_upd; auto|].
+        split; [apply (rwf_len h1); auto; rewrite upd_length; lia|]. split; auto.
+      * repeat split.
+      * intros p. unfold pset_now; simpl. apply Hset.
+      * intros p j Rn. rewrite (fl_single s p0 c p j Ps). destruct (phase_eqb p p0) eqn:Ep; [|reflexivity].
+        apply phase_eqb_eq in Ep. subst p.
+        rewrite (resolve_ext t (rset r) p0) in Rn by (intros x; symmetry; apply Hset). congruence.
+      * intros q j. match goal with |- fl ?S _ _ == _ => rewrite (fl_multi S r q j eq_refl) end. simpl.
+        rewrite (psum_ext all_phases _ (fun p => if phase_eqb p p0
+                    then (if phase_eqb q q0 then nthq (cellv (heap s) c) j else 0) else 0)).
+        -- rewrite psum_indicator by (try apply all_phases_nodup; apply all_phases_in).
+           unfold rowv. destruct (phase_eqb q q0) eqn:Eq.
+           ++ apply phase_eqb_eq in Eq. subst q. rewrite Rc'. rewrite cellv_upd_same by exact Lc'. reflexivity.
+           ++ destruct (r q) as [c2|] eqn:Rq; [|reflexivity].
+              rewrite cellv_upd_other.
+              ** rewrite Cnew by (apply (Hrange q c2 Rq)). apply nthq_vzero.
+              ** intros ->. apply phase_eqb_neq in Eq. apply Eq. eapply Hinj; eauto.
+        -- intros p _. rewrite (fl_single s p0 c p j Ps). unfold pset_now; simpl.
+           destruct (phase_eqb p p0) eqn:Ep.
+           ++ apply phase_eqb_eq in Ep. subst p. unfold lands. rewrite Rq0. reflexivity.
+           ++ destruct (lands (rset r) p q); reflexivity.
+    + inversion H as [Hs']; subst s'; clear H.
+      assert (Zs : forall p j, fl s p j == 0).
+      { intros p j. rewrite (fl_single s p0 c p j Ps). destruct (phase_eqb p p0); [|reflexivity].
+        apply any_nz_false. exact NZ. }
+      split; [|split; [|split; [|split]]].
+      * unfold wf; simpl. split; auto.
+      * repeat split.
+      * intros p. unfold pset_now; simpl. apply Hset.
+      * intros p j _. apply Zs.
+      * intros q j. match goal with |- fl ?S _ _ == _ => rewrite (fl_multi S r q j eq_refl) end. simpl. rewrite Z1.
+        symmetry. apply psum_zero. intros p _. destruct (lands _ p q); [apply Zs|reflexivity].
+  - (* MultiStream -> MultiStream *)
+    simpl in Hp. destruct Hp as [Hr0 Hinj0].
+    destruct (pset_eqb t (rset r0)) eqn:Eqb.
+    + inversion H as [Hs']; subst s'; clear H. pose proof (pset_eqb_true _ _ Eqb) as Et.
+      assert (PN : forall x, pset_now s' x = t x) by (intros x; unfold pset_now; rewrite Ps; symmetry; apply Et).
+      split; [repeat split; auto; rewrite Ps; split; auto|]. split; [repeat split|]. split; [exact PN|].
+      assert (Cv : covers s' t).
+      { intros p j Rn. rewrite (fl_multi s' r0 p j Ps). unfold rowv.
+        destruct (r0 p) eqn:Rp; [|reflexivity].
+        rewrite (resolve_self t p) in Rn; [discriminate|]. rewrite Et. unfold rset. rewrite Rp. reflexivity. }
+      split; [exact Cv|].
+      intros q j. symmetry.
+      rewrite (psum_ext all_phases _ (fun p => if lands t p q then fl s' p j else 0))
+        by (intros p _; rewrite (lands_ext _ t p q PN); reflexivity).
+      apply (psum_lands_id t (fun p => fl s' p j) q). intros p Hne.
+      rewrite (fl_multi s' r0 p j Ps). unfold rowv. destruct (r0 p) eqn:Rp; [|reflexivity].
+      exfalso. apply Hne. apply resolve_self. rewrite Et. unfold rset. rewrite Rp. reflexivity.
+    + destruct (blank (nch s) t (heap s)) as [h1 r] eqn:B.
+      destruct (blank_spec _ _ _ _ _ B) as (E & Hset & Hrange & Hinj).
+      destruct (blank_cells _ _ _ _ _ B) as (Cold & Cnew & Clen).
+      assert (Hh1 : hwf (nch s) h1) by (eapply blank_hwf; eauto).
+      assert (Hr1 : rwf h1 r) by (split; [intros p c' Hc'; apply (Hrange p c' Hc')|exact Hinj]).
+      destruct (move_rows all_phases r0 h1 r) as [h2|e] eqn:M; [|discriminate]. simpl in H.
+      inversion H as [Hs']; subst s'; clear H.
+      assert (Hnew : forall p c, r p = Some c -> (length (heap s) <= c)%nat) by (intros p c Hc; apply (Hrange p c Hc)).
+      assert (Hold : forall p c, r0 p = Some c -> (c < length (heap s))%nat /\ (c < length h1)%nat).
+      { intros p c Hc. specialize (Hr0 p c Hc). lia. }
+      destruct (move_rows_spec (nch s) (length (heap s)) r0 r all_phases h1 h2 Hh1 Hr1 Hnew Hold M)
+        as (A1 & A2 & A3 & A4 & A5).
+      assert (Z1 : forall q j, rowv h1 r q j == 0).
+      { intros q j. unfold rowv. destruct (r q) as [c'|] eqn:Rq; [|reflexivity].
+        rewrite Cnew by (apply (Hrange q c' Rq)). apply nthq_vzero. }
+      assert (Old : forall p j, rowv h1 r0 p j == fl s p j).
+      { intros p j. rewrite (fl_multi s r0 p j Ps). unfold rowv. destruct (r0 p) as [c|] eqn:Rp; [|reflexivity].
+        rewrite Cold by (apply (Hr0 p c Rp)). reflexivity. }
+      split; [|split; [|split; [|split]]].
+      * unfold wf; simpl. split; [exact A2|]. split; [apply (rwf_len h1); auto; lia|]. split; auto.
+      * repeat split.
+      * intros p. unfold pset_now; simpl. apply Hset.
+      * intros p j Rn. rewrite <- Old. apply A5; [apply all_phases_in|].
+        rewrite (resolve_ext (rset r) t p) by (intros x; apply Hset). exact Rn.
+      * intros q j. match goal with |- fl ?S _ _ == _ => rewrite (fl_multi S r q j eq_refl) end. simpl. rewrite A4, Z1.
+        rewrite Qplus_0_l. apply psum_ext. intros p _. unfold pset_now; simpl.
+        destruct (lands (rset r) p q); [apply Old|reflexivity].
 Qed.
